@@ -367,7 +367,7 @@ pub fn scenario(open: BTreeSet<String>) -> PromoScenario {
     ops.push(POp::Api(Op::Connect(1)));
     ops.push(POp::Api(Op::Disconnect(0)));
     ops.push(POp::Api(Op::Set(0, sys_key(0, "graveGoods"), json!(["g/?"]))));
-    ops.push(POp::Api(Op::Set(0, sys_key(0, "lastWill"), json!([{"key": "w", "value": 1}]))));
+    ops.push(POp::Api(Op::Set(0, sys_key(0, "lastWill"), json!([{"key": "w", "value": 1}, {"key": "c", "value": 9}]))));
     ops.push(POp::Api(Op::Set(1, sys_key(1, "graveGoods"), json!(["a"]))));
     ops.push(POp::Api(Op::Set(1, sys_key(1, "lastWill"), json!([{"key": "g/x", "value": 2}]))));
     ops.push(POp::Api(Op::Set(0, s("a"), json!(1))));
